@@ -107,8 +107,9 @@ Proof. exact custom_error_message_hidden. Qed.
 
 (* "every error, built with any public constructor and any representable
    status, produces a response with exactly that status ...": every
-   constructor — with the known class excluded for
-   for_client_error_with_status *)
+   constructor, every status it can be given (for_client_error_with_status
+   included: a status without a standard label gets the message
+   "Client Error") *)
 Theorem C13_constructors_contract : forall (reason_text : N -> str) id,
   header_legal id = true ->
   forall code m status,
@@ -123,32 +124,23 @@ Theorem C13_constructors_contract : forall (reason_text : N -> str) id,
              r_status r = 400 /\ r_body r = BErrJson id code m) /\
   (exists r, respond (for_not_found reason_text code m) id = Ok r /\
              r_status r = 404 /\ r_body r = BErrJson id code (reason_text 404)) /\
-  (has_reason status = true ->
-   exists r, respond (for_client_error_with_status reason_text code status) id = Ok r /\
-             r_status r = status /\ r_body r = BErrJson id code (reason_text status)).
+  (exists r, into_response (for_client_error_with_status reason_text code status) id = Ok r /\
+             r_status r = status /\
+             r_body r = BErrJson id code (with_status_message reason_text status)).
 Proof. exact constructors_contract. Qed.
 
-(* the full-strength clause, kept visible: false (K13) *)
-Definition C13_with_status_full_statement : Prop :=
-  forall (reason_text : N -> str) code status,
-    is_ok (client_from_u16 status) = true ->
-    exists e, for_client_error_with_status reason_text code status = Ok e.
-
-Theorem C13_K13_with_status_refuted :
-  exists status, is_ok (client_from_u16 status) = true /\
-    forall reason_text code, for_client_error_with_status reason_text code status = Err Panic.
-Proof. exact with_status_refuted. Qed.
-
-Theorem C13_with_status_panics_iff : forall (reason_text : N -> str) code status,
-  (has_reason status = false ->
-   for_client_error_with_status reason_text code status = Err Panic) /\
-  (has_reason status = true ->
-   for_client_error_with_status reason_text code status =
-   Ok (mkErr status code (reason_text status) (reason_text status) None)).
+(* for_client_error_with_status is total: the standard label when the status
+   has one, "Client Error" otherwise, as both messages *)
+Theorem C13_with_status_total : forall (reason_text : N -> str) code status,
+  for_client_error_with_status reason_text code status =
+    mkErr status code (with_status_message reason_text status)
+          (with_status_message reason_text status) None /\
+  (has_reason status = true -> with_status_message reason_text status = reason_text status) /\
+  (has_reason status = false -> with_status_message reason_text status = bytes_of "Client Error").
 Proof.
   exact (fun rt code status =>
-           conj (for_client_error_with_status_panics rt code status)
-                (for_client_error_with_status_ok rt code status)).
+           conj (for_client_error_with_status_eq rt code status)
+                (with_status_message_spec rt status)).
 Qed.
 
 (* "every response to a well-formed HTTP request, success or error, carries an
@@ -252,8 +244,7 @@ Print Assumptions C13_no_internal_leak.
 Print Assumptions C13_constructors_hide_internal.
 Print Assumptions C13_custom_error_message_hidden.
 Print Assumptions C13_constructors_contract.
-Print Assumptions C13_K13_with_status_refuted.
-Print Assumptions C13_with_status_panics_iff.
+Print Assumptions C13_with_status_total.
 Print Assumptions C13_request_id_everywhere.
 Print Assumptions C13_handle_wrap_defined.
 Print Assumptions C13_ids_unique.
